@@ -70,6 +70,7 @@ class Sym(Val):
         self.types = types          # set of type names this value is an instance of (closed world) or None
         self.attrs = attrs or {}    # attribute name -> Val (scenario facts such as is_uid -> Const(True))
         self.nonnull = nonnull
+        self.skel = None            # boolean skeleton when the value is the result of a test (flag variables: ok = a == b)
 
     def __repr__(self):
         return 'Sym(%s)' % self.text
@@ -121,6 +122,14 @@ class FuncV(Val):
 class ClassV(Val):
     def __init__(self, ci):
         self.ci = ci
+
+
+class LambdaV(Sym):
+    """A lambda expression: renders as its source text (like any opaque symbol) but can be applied when it is called by name."""
+    def __init__(self, text, fi, closure_env):
+        Sym.__init__(self, text)
+        self.fi = fi
+        self.closure_env = closure_env
 
 
 # --------------------------------------------------------------------------------------------- rendering
@@ -480,7 +489,8 @@ def _clone(v):
 class Scenario(object):
     """Finite facts a path depends on."""
     def __init__(self, name='', bind=None, axioms=None, inline=None, inline_props=None, max_depth=3, self_cls=None,
-                 args=None, unroll=None, oracle=None, forward_stores=True, model_del=True, join_unknown=False):
+                 args=None, unroll=None, oracle=None, forward_stores=True, model_del=True, join_unknown=False,
+                 decide_filters=False, raises=None):
         self.name = name
         self.bind = bind or {}            # dotted path -> Val
         self.axioms = axioms or {}        # normalised condition text -> bool
@@ -494,10 +504,22 @@ class Scenario(object):
         self.forward_stores = forward_stores   # False for parse methods: attribute stores go through property setters
         self.model_del = model_del        # del buf[:n] rebinds buf to the remaining octets (False for reader-sequence extraction)
         self.join_unknown = join_unknown  # undecided `if`: run both arms and join the normal exits (call/store sets are united)
+        self.decide_filters = decide_filters   # comprehension filters the scenario decides are applied (True: dropped, False: empty result)
+        self.raises = raises              # callable(call text) -> exception text | None: calls the scenario says raise (the statement
+                                          # ends the path with status 'raise' in the state reached so far; an enclosing try may catch it)
 
+
+HASHLIB_CTORS = ('md5', 'sha1', 'sha224', 'sha256', 'sha384', 'sha512', 'sha3_224', 'sha3_256', 'sha3_384', 'sha3_512', 'blake2b', 'blake2s')
 
 BUILTIN_TYPES = {'str', 'bytes', 'bytearray', 'int', 'bool', 'list', 'tuple', 'set', 'dict', 'NoneType', 'datetime',
                  'timedelta'}
+
+
+class CallRaises(Exception):
+    """A call the scenario declares as raising (Scenario.raises) was evaluated."""
+    def __init__(self, text):
+        Exception.__init__(self, text)
+        self.text = text
 
 
 class Interp(object):
@@ -595,7 +617,14 @@ class Frame(object):
         if m is None:
             self.I.notes.append('unmodelled statement %s in %s' % (type(node).__name__, self.fi.qualname))
             return [(st, 'normal')]
-        return m(node, st)
+        if self.sc.raises is None:
+            return m(node, st)
+        try:
+            return m(node, st)
+        except CallRaises as ex:
+            st.raised = ex.text
+            st.events.append(('raise', ex.text, getattr(node, 'lineno', 0)))
+            return [(st, 'raise')]
 
     def st_Pass(self, node, st):
         return [(st, 'normal')]
@@ -682,7 +711,8 @@ class Frame(object):
             v = self.add(cur, rhs)
         elif isinstance(node.op, ast.BitOr) and isinstance(node.target, ast.Name) and \
                 not (isinstance(cur, Const) and isinstance(rhs, Const)):
-            v = Sym('(%s | %s)' % (render(cur), render(rhs)))
+            v = Sym('(%s | %s)' % (render(cur), render(rhs)), types=self._or_types(cur))
+            v.or_self = v.types is not None
             st.events.append(('ior', render(cur), render(rhs), node.lineno))
         else:
             v = self.binop(node.op, cur, rhs)
@@ -802,10 +832,20 @@ class Frame(object):
             outs = fin
         return outs
 
-    def _iter_values(self, node, st, bname=None):
+    def _iter_values(self, node, st, bname=None, target=None):
         """Return a list of Vals if the iterable is statically enumerable, else None."""
         itv = self.ev(node, st)
         t = render(itv)
+        self._fuse = None
+        if isinstance(itv, EachV) and len(itv.elems) == 1 and isinstance(itv.elems[0], Sym) and itv.elems[0].text != itv.var \
+                and bname is not None and isinstance(target, ast.Name):
+            # iterating a mapping / projecting comprehension `(E(v) for v in coll if c)` is iterating coll (with the filter)
+            # with the loop variable bound to E(v): `for x in (g for k, g in coll if c)` = `for k, g in coll: if c: x = g`
+            roots = set(re.findall(r'\$[\d.]+', itv.var))
+            if len(roots) == 1 and (itv.var in roots or re.match(r'^\((%s_\d+(, )?)+\)$' % re.escape(next(iter(roots))), itv.var)):
+                pat = re.escape(next(iter(roots))) + r'(?!\d)(?!\.\d)'
+                self._fuse = (re.sub(pat, bname, itv.var), Sym(re.sub(pat, bname, itv.elems[0].text), nonnull=True))
+                return None, re.sub(pat, bname, itv.coll)
         if isinstance(itv, EachV) and len(itv.elems) == 1 and isinstance(itv.elems[0], Sym) and itv.elems[0].text == itv.var \
                 and bname is not None and re.match(r'^\$[\d.]+$', itv.var):
             # iterating a (filtered) identity comprehension is iterating the underlying collection (with the filter)
@@ -818,13 +858,17 @@ class Frame(object):
         if t in self.sc.unroll:
             return self.sc.unroll[t], t
         if isinstance(itv, ListV) and len(itv.elems) <= 12:
+            if any(isinstance(e, Sym) and e.text.startswith('*') for e in itv.elems):
+                return None, t          # (a, *rest): the starred part has unknown length - summarise
             return itv.elems, t
-        if isinstance(itv, Const) and isinstance(itv.value, (tuple, list)) and len(itv.value) <= 12:
+        if isinstance(itv, Const) and isinstance(itv.value, (tuple, list, bytes, bytearray)) and len(itv.value) <= 12:
             return [Const(x) for x in itv.value], t
         return None, t
 
     def st_For(self, node, st):
-        vals, colltext = self._iter_values(node.iter, st, self._bname(node))
+        vals, colltext = self._iter_values(node.iter, st, self._bname(node), node.target)
+        if vals is not None and isinstance(node.target, (ast.Tuple, ast.List)) and any(isinstance(v, EachV) for v in vals):
+            vals = None     # a summarised segment of unknown length cannot be destructured element-wise: summarise this loop too
         if vals is not None:
             cur = [(st, 'normal')]
             for v in vals:
@@ -854,7 +898,46 @@ class Frame(object):
         d = self.decide(node.test, st)
         if d is False:
             return self.block(node.orelse, st)
+        if d is True:
+            r = self._unroll_counted_while(node, st)
+            if r is not None:
+                return r
         return self._summarise_loop(node, st, 'while ' + self.text(node.test, st), '_', None)
+
+    def _unroll_counted_while(self, node, st, limit=512):
+        """A while loop whose test reads only locals that hold integer constants (a counter) is followed iteration by iteration, as
+        long as every iteration has one path and the test stays decided; otherwise None (the caller summarises the loop as before)."""
+        names = [n.id for n in ast.walk(node.test) if isinstance(n, ast.Name)]
+        if not names or not all(isinstance(st.env.get(n), Const) and type(st.env[n].value) in (int, bool) for n in names):
+            return None
+        cur = st.fork()
+        for _ in range(limit):
+            d = self.decide(node.test, cur)
+            if d is False:
+                outs = self.block(node.orelse, cur)
+                break
+            if d is not True:
+                return None
+            outs = self.block(node.body, cur)
+            if len(outs) != 1:
+                return None
+            cur, status = outs[0]
+            if status == 'break':
+                outs = [(cur, 'normal')]
+                break
+            if status in ('return', 'raise'):
+                break
+        else:
+            return None
+        # the walk happened on a copy: adopt its result as this path's state
+        final = []
+        for s2, status in outs:
+            if s2 is cur:
+                st.__dict__.update(s2.__dict__)
+                final.append((st, status))
+            else:
+                final.append((s2, status))
+        return final
 
     def _bname(self, node):
         k = self.bindex.get(id(node), 0)
@@ -862,13 +945,33 @@ class Frame(object):
 
     def _summarise_loop(self, node, st, colltext, vartext, target):
         before = st.fork()
+        fuse, self._fuse = getattr(self, '_fuse', None), None
         if target is not None:
-            vartext = self._assign_loopvars(target, st, node, self._bname(node))
+            if fuse is not None and isinstance(target, ast.Name):
+                vartext = fuse[0]
+                st.env[target.id] = fuse[1]
+            else:
+                vartext = self._assign_loopvars(target, st, node, self._bname(node))
             st.bound[self._bname(node)] = colltext.split(' if ')[0]       # the collection; a fused filter stays in the EACH text
         nyield = len(st.yields)
         body = self.block(node.body, st)
+        if getattr(self.sc, 'loop_observer', None) is not None:
+            # rules that reason about one iteration (which paths skip / attach / file) see the paths before they are merged
+            self.sc.loop_observer(self, node, colltext, vartext, before, body)
         outs = []
         normal = [s for s, status in body if status in ('normal', 'continue', 'break')]
+        statuses = [status for s, status in body if status in ('normal', 'continue', 'break')]
+        nfacts = len(before.facts)
+
+        def skip_filter(contributes):
+            """Paths of one iteration that add nothing to an accumulator only skip the element: `if c: continue` before the
+            append, a guarding `if`, and a filtered comprehension all denote EACH(v in coll if <cond>; delta).  Returns the
+            ' if <cond>' suffix for the paths that do contribute, '' when every path does, None when it cannot be expressed."""
+            if all(contributes):
+                return ''
+            if any(stt == 'break' for stt, c in zip(statuses, contributes) if not c):
+                return None                       # leaving the loop is not a filter
+            return path_filter([s.facts[nfacts:] for s, c in zip(normal, contributes) if c])
         for s, status in body:
             if status in ('return', 'raise'):
                 s.facts.append(('in loop over %s' % colltext, True, None))
@@ -894,16 +997,45 @@ class Frame(object):
                         uniq.append(d)
                 if uniq == [[]]:
                     continue
+                filt = ''
+                if len(uniq) == 2 and [] in uniq:
+                    filt = skip_filter([d != [] for d in deltas])
+                    if filt is None:
+                        filt = ''
+                    else:
+                        uniq = [d for d in uniq if d != []]
                 inner = uniq[0] if len(uniq) == 1 else [('ALT', uniq)]
                 cls = type(old)
                 if cls is Bytes:
-                    base.env[name] = Bytes(old.items + [('EACH', vartext, colltext, inner)])
+                    base.env[name] = Bytes(old.items + [('EACH', vartext, colltext + filt, inner)])
                 else:
-                    base.env[name] = Hasher(old.alg, old.items + [('EACH', vartext, colltext, inner)])
+                    base.env[name] = Hasher(old.alg, old.items + [('EACH', vartext, colltext + filt, inner)])
             elif isinstance(old, ListV):
+                grown = []
+                for s in normal:
+                    new = s.env.get(name)
+                    grown.append(new.elems[len(old.elems):] if isinstance(new, ListV) and len(new.elems) > len(old.elems) else [])
+                keys = [[render(e) for e in g] for g in grown]
+                uniq = []
+                for k in keys:
+                    if k not in uniq:
+                        uniq.append(k)
+                if len(uniq) == 2 and [] in uniq:
+                    filt = skip_filter([k != [] for k in keys])
+                    if filt is not None:
+                        g = next(g for g in grown if g)
+                        base.env[name] = ListV(old.elems + [EachV(vartext, colltext + filt, g)], old.kind)
+                        continue
                 new = base.env.get(name)
                 if isinstance(new, ListV) and len(new.elems) > len(old.elems):
                     base.env[name] = ListV(old.elems + [EachV(vartext, colltext, new.elems[len(old.elems):])], old.kind)
+            elif isinstance(old, Const) and isinstance(old.value, str) and target is not None:
+                # text accumulated in a loop (s += piece): s + ''.join(piece for ...), if every path of the body appends the same piece
+                pre = '(%s + ' % render(old)
+                news = set(render(s.env.get(name)) if s.env.get(name) is not None else None for s in normal)
+                new = base.env.get(name)
+                if len(news) == 1 and isinstance(new, Sym) and new.text.startswith(pre) and new.text.endswith(')') and _balanced(new.text[len(pre):-1]):
+                    base.env[name] = Sym("(%s + ''.join(EACH(%s in %s;%s)))" % (render(old), vartext, colltext, new.text[len(pre):-1]))
         # yields inside the loop
         ys = []
         for s in normal:
@@ -911,8 +1043,15 @@ class Frame(object):
             if y not in ys:
                 ys.append(y)
         if ys and ys != [[]]:
+            filt = ''
+            if len(ys) == 2 and [] in ys:
+                filt = skip_filter([bool(s.yields[nyield:]) for s in normal])
+                if filt is None:
+                    filt = ''
+                else:
+                    ys = [y for y in ys if y]
             inner = ' '.join(ys[0]) if len(ys) == 1 else 'ALT(%s)' % ' | '.join(' '.join(y) for y in ys)
-            base.yields = base.yields[:nyield] + [Sym('EACH(%s in %s;%s)' % (vartext, colltext, inner))]
+            base.yields = base.yields[:nyield] + [Sym('EACH(%s in %s;%s)' % (vartext, colltext + filt, inner))]
         # calls / stores of all normal paths are kept (union, order of first path first)
         for s in normal[1:]:
             for c in s.calls:
@@ -1010,6 +1149,10 @@ class Frame(object):
             ft = self.text(test.func, st)
             args = [self.text(a, st) for a in test.args]
             return ('call', ft, args)
+        if isinstance(test, (ast.Name, ast.Attribute)):
+            v = self.ev(test, st, quiet=True)
+            if isinstance(v, Sym) and getattr(v, 'skel', None) is not None:
+                return v.skel           # a flag that holds the result of an earlier test
         return ('expr', self.text(test, st))
 
     def truth(self, v):
@@ -1203,6 +1346,16 @@ class Frame(object):
             if f is not None:
                 return Sym(path, cls=None)
             return Sym(path)
+        if node.attr == '__contains__' and isinstance(base, ListV) and base.elems and all(isinstance(e, Const) for e in base.elems):
+            try:        # the bound method of a literal collection is the predicate `x in <collection>`
+                lam = ast.parse('lambda _x: _x in %s' % bt, mode='eval').body
+                ast.copy_location(lam, node)
+                ast.fix_missing_locations(lam)
+                v = self.ev_Lambda(lam, st)
+                v.text = path
+                return v
+            except SyntaxError:
+                pass
         if node.attr == 'hasher':
             return Hasher(bt)
         cls = base.cls if isinstance(base, (Sym, Obj)) else None
@@ -1246,7 +1399,13 @@ class Frame(object):
         if owner is None:
             return None
         fr = Frame(self.I, FunctionInfo(ast.parse('def _f(): pass').body[0], owner.module, owner), self.depth)
-        elems = [fr.ev(e, State()) for e in inner.elts]
+        st0 = State()
+        for k, v in owner.attrs.items():          # other literal constants of the class body are in scope there
+            try:
+                st0.env[k] = Const(ast.literal_eval(v))
+            except Exception:
+                pass
+        elems = [fr.ev(e, st0) for e in inner.elts]
         if not all(isinstance(e, Const) for e in elems):
             return None
         return ListV(elems, 'set' if isinstance(inner, ast.Set) else 'tuple')
@@ -1260,7 +1419,18 @@ class Frame(object):
         return False
 
     def ev_JoinedStr(self, node, st):
-        return Sym(ast.unparse(node))
+        # f'a{x!r:>4}b' is the value 'a{!r:>4}b'.format(x): one spelling, with the interpolated values rendered like any other
+        tmpl, args = '', []
+        for v in node.values:
+            if isinstance(v, ast.Constant):
+                tmpl += str(v.value).replace('{', '{{').replace('}', '}}')
+            elif isinstance(v, ast.FormattedValue) and (v.format_spec is None or all(isinstance(x, ast.Constant) for x in v.format_spec.values)):
+                spec = '' if v.format_spec is None else ''.join(str(x.value) for x in v.format_spec.values)
+                tmpl += '{%s%s}' % ('!' + chr(v.conversion) if v.conversion and v.conversion > 0 else '', ':' + spec if spec else '')
+                args.append(self.ev(v.value, st))
+            else:
+                return Sym(ast.unparse(node))
+        return Sym('%r.format(%s)' % (tmpl, ', '.join(render(a) for a in args)))
 
     def ev_Tuple(self, node, st):
         return ListV([self.ev(e, st) for e in node.elts], 'tuple')
@@ -1281,7 +1451,13 @@ class Frame(object):
         return Sym('*' + self.text(node.value, st))
 
     def ev_Lambda(self, node, st):
-        return Sym(ast.unparse(node))
+        try:
+            fd = ast.FunctionDef(name='<lambda>', args=node.args, body=[ast.Return(value=node.body)], decorator_list=[], returns=None, type_params=[])
+            ast.copy_location(fd, node)
+            ast.fix_missing_locations(fd)
+            return LambdaV(ast.unparse(node), FunctionInfo(fd, self.module, None, outer=self.fi), st.env)
+        except Exception:       # pragma: no cover
+            return Sym(ast.unparse(node))
 
     def _map_known(self, node, st):
         """[f(x) for x in L] with L a known list: map element-wise (EachV elements are mapped inside)."""
@@ -1291,6 +1467,8 @@ class Frame(object):
         if g.ifs or not isinstance(g.target, ast.Name):
             return None
         itv = self.ev(g.iter, st)
+        if isinstance(itv, EachV):
+            itv = ListV([itv], 'each')      # mapping over a summarised sequence maps its element: same summary, new element
         if not isinstance(itv, ListV) or len(itv.elems) > 12:
             return None
 
@@ -1300,6 +1478,8 @@ class Frame(object):
             s2 = st.fork()
             s2.env[g.target.id] = e
             return self.ev(node.elt, s2)
+        if itv.kind == 'each':
+            return apply(itv.elems[0])
         return ListV([apply(e) for e in itv.elems], 'list')
 
     def _comp(self, node, st, br):
@@ -1310,11 +1490,22 @@ class Frame(object):
         s2 = st.fork()
         gens = []
         for g in node.generators:
-            it = self._iter_values(g.iter, s2, self._bname(g))[1]
-            vt = self._assign_loopvars(g.target, s2, node, self._bname(g))
+            it = self._iter_values(g.iter, s2, self._bname(g), g.target)[1]
+            fuse, self._fuse = self._fuse, None
+            if fuse is not None:
+                vt = fuse[0]
+                s2.env[g.target.id] = fuse[1]
+            else:
+                vt = self._assign_loopvars(g.target, s2, node, self._bname(g))
             st.bound[self._bname(g)] = it.split(' if ')[0]
             s2.bound[self._bname(g)] = it.split(' if ')[0]
-            conds = [self.cond_text(c, s2) for c in g.ifs]
+            conds = []
+            for c in g.ifs:
+                d = self.decide(c, s2) if self.sc.decide_filters else None
+                if d is False:
+                    return ListV([], 'set' if br == '{}' else 'list')      # the scenario says no element passes the filter
+                if d is None:
+                    conds.append(self.cond_text(c, s2))
             gens.append((vt, it, conds))
         if isinstance(node, ast.DictComp):
             eltv = None
@@ -1382,7 +1573,9 @@ class Frame(object):
         if d is not None:
             return Const(d)
         op = ' or ' if isinstance(node.op, ast.Or) else ' and '
-        return Sym('(%s)' % op.join(render(v) for v in vals))
+        r = Sym('(%s)' % op.join(render(v) for v in vals))
+        r.skel = self.cond_skel(node, st)
+        return r
 
     def ev_UnaryOp(self, node, st):
         v = self.ev(node.operand, st)
@@ -1390,7 +1583,9 @@ class Frame(object):
             d = self.decide(node, st)
             if d is not None:
                 return Const(d)
-            return Sym('not %s' % render(v))
+            r = Sym('not %s' % render(v))
+            r.skel = self.cond_skel(node, st)
+            return r
         if isinstance(v, Const) and isinstance(v.value, (int, float)) and not isinstance(v.value, bool):
             if isinstance(node.op, ast.USub):
                 return Const(-v.value)
@@ -1407,14 +1602,37 @@ class Frame(object):
         for op, c in zip(node.ops, node.comparators):
             parts.append(OPS[type(op)])
             parts.append(self.text(c, st))
-        return Sym('(%s)' % ' '.join(parts))
+        r = Sym('(%s)' % ' '.join(parts))
+        if len(node.ops) == 1:
+            r.skel = ('cmp', parts[1], parts[0], parts[2])
+        return r
 
     def ev_BinOp(self, node, st):
         l = self.ev(node.left, st)
         r = self.ev(node.right, st)
         if isinstance(node.op, ast.Add):
             return self.add(l, r)
-        return self.binop(node.op, l, r)
+        v = self.binop(node.op, l, r)
+        if isinstance(node.op, ast.BitOr) and isinstance(v, Sym) and v.types is None:
+            v.types = self._or_types(l)
+            v.or_self = v.types is not None
+        return v
+
+    def _or_types(self, left):
+        """Type tags of `left | x` when left is an object of a repo class whose __or__ returns its receiver on every returning
+        path (the composition idiom `obj |= part`): the result is that object, so isinstance tests on it are decidable."""
+        if isinstance(left, Sym) and left.types is not None and getattr(left, 'or_self', False):
+            return left.types
+        cls = left.cls if isinstance(left, (Sym, Obj)) else None
+        if cls is None:
+            return None
+        fi = cls.find_method('__or__')
+        if fi is None or not fi.params:
+            return None
+        rets = [n for n in _preorder(fi.node) if isinstance(n, ast.Return)]
+        if not rets or not all(isinstance(n.value, ast.Name) and n.value.id == fi.params[0] for n in rets):
+            return None
+        return {cls.name}
 
     def add(self, l, r):
         if isinstance(l, Bytes) or isinstance(r, Bytes):
@@ -1463,6 +1681,16 @@ class Frame(object):
         path = '%s[%s]' % (render(base), self._slice_text(sl, st))
         if path in st.env:
             return st.env[path]
+        if isinstance(base, Const) and isinstance(base.value, (tuple, str, bytes, bytearray)):
+            # constant folding: a literal sequence indexed / sliced by literals
+            parts = [sl.lower, sl.upper, sl.step] if isinstance(sl, ast.Slice) else [sl]
+            vals = [None if x is None else self.ev(x, st) for x in parts]
+            if all(v is None or (isinstance(v, Const) and (v.value is None or type(v.value) is int)) for v in vals):
+                nums = [None if v is None else v.value for v in vals]
+                try:
+                    return Const(base.value[slice(*nums)] if isinstance(sl, ast.Slice) else base.value[nums[0]])
+                except (IndexError, TypeError, ValueError):
+                    pass
         if isinstance(sl, ast.Slice):
             lo = self.text(sl.lower, st) if sl.lower is not None else ''
             if lo == '0':
@@ -1527,7 +1755,16 @@ class Frame(object):
         def record(ft):
             st.calls.append((ft, [render(a) for a in args], {k: render(v) for k, v in kwargs.items()}, node.lineno, node))
             st.events.append(('call', ft, [render(a) for a in args], {k: render(v) for k, v in kwargs.items()}, node.lineno))
+            if self.sc.raises is not None:
+                exc = self.sc.raises(ft)
+                if exc:
+                    raise CallRaises(exc)
 
+        # ---- operator.itemgetter(k1, k2..)(d) is (d[k1], d[k2]..)
+        if isinstance(func, ast.Call) and dotted(func.func) in ('operator.itemgetter', 'itemgetter') and func.args and len(node.args) == 1 and \
+                not node.keywords and not func.keywords:
+            items = [self.ev(ast.copy_location(ast.Subscript(value=node.args[0], slice=k, ctx=ast.Load()), node), st) for k in func.args]
+            return items[0] if len(items) == 1 else ListV(items, 'tuple')
         # ---- method calls on interpreted values
         if isinstance(func, ast.Attribute):
             recv = self.ev(func.value, st)
@@ -1583,8 +1820,18 @@ class Frame(object):
                     recv.elems.append(args[0])
                     record(ftext)
                     return Const(None)
-                if meth == 'extend' and len(args) == 1 and isinstance(args[0], ListV):
-                    recv.elems.extend(args[0].elems)
+                if meth == 'extend' and len(args) == 1 and isinstance(args[0], (ListV, EachV)):
+                    recv.elems.extend(args[0].elems if isinstance(args[0], ListV) else [args[0]])     # extend(genexp) == the append loop
+                    record(ftext)
+                    return Const(None)
+                if meth == 'insert' and len(args) == 2 and isinstance(args[0], Const) and isinstance(args[0].value, int) and \
+                        not isinstance(args[0].value, bool) and not any(isinstance(e, EachV) for e in recv.elems):
+                    recv.elems.insert(args[0].value, args[1])
+                    record(ftext)
+                    return Const(None)
+                if meth == 'extend' and len(args) == 1 and isinstance(args[0], EachV):
+                    # L.extend(<comprehension>) == for x in ..: L.append(elt): the same summary element a loop gets
+                    recv.elems.append(args[0])
                     record(ftext)
                     return Const(None)
             if isinstance(recv, Bytes) and meth == 'join' and len(args) == 1:
@@ -1595,7 +1842,7 @@ class Frame(object):
                         its.extend(as_items(e))
                     return Bytes(its)
                 if isinstance(args[0], EachV) and not merge_consts(recv.items):
-                    return Bytes(as_items(args[0]))      # b''.join(f(x) for x in xs) is the loop appending f(x)
+                    return Bytes(as_items(args[0]))     # b''.join(<comprehension>) == the loop that appends each element
                 if not merge_consts(recv.items):
                     return Bytes([('SYM', 'join(%s)' % render(args[0]))])
                 return Bytes([('SYM', '%s.join(%s)' % (render(recv), render(args[0])))])
@@ -1608,6 +1855,13 @@ class Frame(object):
                 h = Hasher(alg)
                 if len(args) > 1 or 'data' in kwargs:
                     h.items.extend(as_items(args[1] if len(args) > 1 else kwargs['data']))
+                return h
+            if fname is not None and fname.startswith('hashlib.') and fname[8:] in HASHLIB_CTORS:
+                # hashlib.sha1([data]) is hashlib.new('sha1'[, data])
+                record(fname)
+                h = Hasher(fname[8:])
+                if args:
+                    h.items.extend(as_items(args[0]))
                 return h
             if fname in ('hashes.Hash',) and args:
                 record(fname)
@@ -1644,6 +1898,7 @@ class Frame(object):
             if cls is not None:
                 fi = cls.find_method(meth)
                 if fi is not None and cls.find_prop(meth) is None and cls.find_plain_prop(meth) is None:
+                    args, kwargs = _positional(fi, args, kwargs, True)      # keyword arguments of a resolved callee -> positions
                     record('%s.%s' % (render(recv), meth))
                     self.I.resolved_calls += 1
                     r = self._maybe_inline(fi, recv, args, kwargs, st, node)
@@ -1651,18 +1906,31 @@ class Frame(object):
                         return r
                     return Sym('%s.%s(%s)' % (render(recv), meth, self._argtext(args, kwargs)))
             record(ftext)
+            if meth == 'get' and len(args) in (1, 2) and not kwargs and '%s[%s]' % (render(recv), render(args[0])) in st.env:
+                return st.env['%s[%s]' % (render(recv), render(args[0]))]          # d.get(k) of an entry the scenario / path knows
             return self._opaque_call(ftext, args, kwargs, recv, meth)
 
         # ---- plain names
         if isinstance(func, ast.Name):
             n = func.id
             callee = st.env.get(n)
-            if isinstance(callee, FuncV):
+            if isinstance(callee, (FuncV, LambdaV)):
                 record(n)
                 r = self._maybe_inline(callee.fi, None, args, kwargs, st, node, closure=callee.closure_env, force=True)
                 if r is not None:
                     return r
                 return Sym('%s(%s)' % (n, self._argtext(args, kwargs)))
+            if isinstance(callee, ClassV) and n not in self.fi.params:
+                # a local (not a parameter such as `cls`) bound to a class (k = A if c else B; k()): the call constructs that class
+                record(callee.ci.name)
+                return self._construct(callee.ci, args, kwargs, st, node)
+            if isinstance(callee, Sym) and callee.text != n and re.match(r'^[\w.()]+$', callee.text):
+                # a local that holds a callable value (bound method, function reference): the call is a call of that value
+                record(callee.text)
+                if callee.text.endswith('.int_to_bytes') and args and len(args) <= 2 and set(kwargs) <= {'minlen'}:
+                    w = args[1] if len(args) > 1 else kwargs.get('minlen', Const(1))       # the modelled bound method held in a local
+                    return Bytes([('INT', render(w), render(args[0]))])
+                return Sym('%s(%s)' % (callee.text, self._argtext(args, kwargs)))
             if n in ('bytearray', 'bytes'):
                 record(n)
                 if not args:
@@ -1676,6 +1944,8 @@ class Frame(object):
                     return Bytes([('C', bytes(a.value))])
                 if isinstance(a, Sym) and a.text.startswith('[') and ' for ' not in a.text:
                     return Bytes([('SYM', a.text)])
+                if isinstance(a, Sym) and st.bound.get(a.text, '').startswith('range('):
+                    return Bytes([('REP', [('C', b'\x00')], a.text)])      # bytes(i), i an index of a range: i zero octets
                 if isinstance(a, Const) and isinstance(a.value, int):
                     return Bytes([('REP', [('C', b'\x00')], render(a))])
                 return Bytes([('SYM', a.text if isinstance(a, Sym) else render(a))])
@@ -1688,6 +1958,15 @@ class Frame(object):
                         return Const(sum(len(i[1]) for i in its))
                 if isinstance(a, ListV):
                     return Const(len(a.elems))
+                lcls = a.cls if isinstance(a, (Sym, Obj)) else None
+                lfi = lcls.find_method('__len__') if lcls is not None else None
+                if lfi is not None and self.sc.inline is not None and self.sc.inline(lfi):
+                    # len(x) on an object of a known class is x.__len__() (only under an explicit inlining policy)
+                    r = self._maybe_inline(lfi, a, [], {}, st, node)
+                    if r is not None:
+                        return r
+                if isinstance(a, Const) and isinstance(a.value, (str, bytes, bytearray, tuple)):
+                    return Const(len(a.value))
                 return Sym('len(%s)' % render(a))
             if n in ('int', 'bool', 'str') and len(args) == 1 and isinstance(args[0], Const) and \
                     not isinstance(args[0].value, Enum):
@@ -1720,10 +1999,18 @@ class Frame(object):
             if n in ('iter', 'list', 'tuple') and len(args) == 1 and isinstance(args[0], EachV) and not kwargs:
                 record(n)
                 return args[0]
+            if n == 'filter' and len(args) == 2 and not kwargs:
+                fv = self._filter_each(node, args, st)
+                if fv is not None:
+                    record(n)
+                    return fv
             if n in ('frozenset', 'set', 'tuple', 'list') and len(args) == 1 and not kwargs and isinstance(args[0], ListV) and \
                     not any(isinstance(e, EachV) for e in args[0].elems):
                 record(n)
-                return ListV(list(args[0].elems), 'set' if n in ('frozenset', 'set') else n)
+                return ListV(list(args[0].elems), 'set' if n in ('frozenset', 'set') else n)     # a known collection, whatever its container
+            if n == 'iter' and len(args) == 1 and not kwargs and isinstance(args[0], Const) and isinstance(args[0].value, (tuple, list, bytes, bytearray)):
+                record(n)
+                return args[0]          # iterating iter(<literal sequence>) is iterating the sequence
             if n == 'zip' and args and not kwargs and all(isinstance(a, ListV) and not any(isinstance(e, EachV) for e in a.elems) for a in args):
                 record(n)
                 return ListV([ListV(list(t), 'tuple') for t in zip(*[a.elems for a in args])], 'list')
@@ -1740,16 +2027,6 @@ class Frame(object):
                 for e in reversed(args[0].elems):
                     rev.append(EachV(e.var, 'reversed(%s)' % e.coll, e.elems) if isinstance(e, EachV) else e)
                 return ListV(rev, args[0].kind)
-            if isinstance(callee, ClassV):          # a local bound to a class: cls = K; cls()
-                record(callee.ci.name)
-                return self._construct(callee.ci, args, kwargs, st, node)
-            if isinstance(callee, Sym) and callee.text != n and n not in BUILTIN_TYPES:
-                # a local holding a callable value: the call is a call of that value, whatever the local is named
-                record(callee.text)
-                if callee.text.endswith('.int_to_bytes') and args and len(args) <= 2 and set(kwargs) <= {'minlen'}:
-                    w = args[1] if len(args) > 1 else kwargs.get('minlen', Const(1))       # bound method held in a local
-                    return Bytes([('INT', render(w), render(args[0]))])
-                return Sym('%s(%s)' % (callee.text, self._argtext(args, kwargs)))
             r = self.prog.lookup(self.module, n)
             if isinstance(r, ClassInfo):
                 record(n)
@@ -1767,12 +2044,47 @@ class Frame(object):
         record(ftext)
         return Sym('%s(%s)' % (ftext, self._argtext(args, kwargs)))
 
+    def _filter_each(self, node, args, st):
+        """filter(lambda v: c, it) / filter(<one-expression local function>, it) is the comprehension (v for v in it if c)."""
+        pred = node.args[0]
+        lam = None
+        if isinstance(pred, ast.Lambda):
+            lam = (pred.args, pred.body)
+        elif isinstance(args[0], Sym) and args[0].text.startswith('lambda '):
+            try:
+                x = ast.parse(args[0].text, mode='eval').body
+                lam = (x.args, x.body)
+            except SyntaxError:
+                lam = None
+        elif isinstance(args[0], FuncV) and args[0].fi.cls is None:
+            body = [b for b in args[0].fi.node.body if not (isinstance(b, ast.Expr) and isinstance(b.value, ast.Constant))]
+            if len(body) == 1 and isinstance(body[0], ast.Return) and body[0].value is not None:
+                lam = (args[0].fi.node.args, body[0].value)
+        if lam is None or len(lam[0].args) != 1 or lam[0].vararg or lam[0].kwarg or lam[0].kwonlyargs or lam[0].defaults:
+            return None
+        if not hasattr(self, 'lambda_index'):
+            self.lambda_index = {}
+        k = self.lambda_index.setdefault(id(node), len(self.bindex) + len(self.lambda_index) + 1)
+        bname = '$%d' % k if self.depth == 0 else '$%d.%d' % (self.depth, k)
+        s2 = st.fork()
+        s2.env[lam[0].args[0].arg] = Sym(bname, nonnull=True)
+        cond = self.cond_text(lam[1], s2)
+        it = render(args[1])
+        st.bound[bname] = it
+        return EachV(bname, '%s if %s' % (it, cond), [Sym(bname)])
+
     def _argtext(self, args, kwargs):
         parts = [render(a) for a in args] + ['%s=%s' % (k, render(v)) for k, v in kwargs.items()]
         return ', '.join(parts)
 
     def _opaque_call(self, ftext, args, kwargs, recv, meth):
         self.I.unresolved_calls += 1
+        if isinstance(recv, Const) and isinstance(recv.value, str) and meth in PURE_STR_METHODS and not kwargs and \
+                all(isinstance(a, Const) and isinstance(a.value, (str, int)) and not isinstance(a.value, Enum) for a in args):
+            try:
+                return Const(getattr(recv.value, meth)(*[a.value for a in args]))      # constant folding of a pure str method
+            except Exception:
+                pass
         at = self._argtext(args, kwargs)
         base = render(recv)
         # transparent wrappers: bytes(x) etc. are handled elsewhere; here a few text-preserving methods
@@ -1901,6 +2213,76 @@ class Frame(object):
         return Sym('ALT(%s)' % ' | '.join(texts))
 
 
+def _positional(fi, args, kwargs, bound):
+    """Move keyword arguments of a call to a resolved callee into their positions (as far as they continue the positional list)."""
+    if not kwargs or '**' in kwargs:
+        return args, kwargs
+    a = fi.node.args
+    if a.vararg is not None:
+        return args, kwargs
+    params = [x.arg for x in a.posonlyargs + a.args]
+    is_static = any(dotted(d) == 'staticmethod' for d in fi.node.decorator_list)
+    if bound and fi.cls is not None and not is_static and params:
+        params = params[1:]
+    args = list(args)
+    kwargs = dict(kwargs)
+    for p in params[len(args):]:
+        if p in kwargs:
+            args.append(kwargs.pop(p))
+        else:
+            break
+    return args, kwargs
+
+
+NEGOPS = {'==': '!=', '!=': '==', 'in': 'not in', 'not in': 'in', 'is': 'is not', 'is not': 'is'}
+
+
+def _fact_literal(f):
+    """Text of one path decision (cond_text, value, skeleton) as a condition that holds on the path."""
+    t, val, sk = f
+    if val:
+        return t
+    if sk is not None and sk[0] == 'not' and t.startswith('not '):
+        return t[4:]
+    if sk is not None and sk[0] == 'cmp' and sk[1] in NEGOPS and t == '(%s %s %s)' % (sk[2], sk[1], sk[3]):
+        return '(%s %s %s)' % (sk[2], NEGOPS[sk[1]], sk[3])
+    return 'not %s' % t
+
+
+def path_filter(factlists):
+    """' if c1 if c2' for the disjunction of the given paths (each a list of decisions); None when a decision is not a condition
+    of the element (exception edges).  Paths that differ in the value of one decision only are merged first."""
+    paths = []
+    for fl in factlists:
+        if any(len(f) < 3 or f[2] is None for f in fl):
+            return None
+        p = [(f[0], bool(f[1]), _fact_literal(f)) for f in fl]
+        if p not in paths:
+            paths.append(p)
+    changed = True
+    while changed and len(paths) > 1:
+        changed = False
+        for i in range(len(paths)):
+            for j in range(i + 1, len(paths)):
+                a, b = paths[i], paths[j]
+                if len(a) == len(b):
+                    diff = [k for k in range(len(a)) if a[k][:2] != b[k][:2]]
+                    if len(diff) == 1 and a[diff[0]][0] == b[diff[0]][0]:
+                        merged = a[:diff[0]] + a[diff[0] + 1:]
+                        paths = [p for k, p in enumerate(paths) if k not in (i, j)]
+                        if merged not in paths:
+                            paths.append(merged)
+                        changed = True
+                        break
+            if changed:
+                break
+    if any(not p for p in paths):
+        return ''
+    if len(paths) == 1:
+        return ''.join(' if ' + lit for _, _, lit in paths[0])
+    return ' if (%s)' % ' or '.join('(%s)' % ' and '.join(lit for _, _, lit in p) if len(p) > 1 else p[0][2] for p in paths)
+
+
 def _preorder(node):
     yield node
     for ch in ast.iter_child_nodes(node):
@@ -1950,8 +2332,9 @@ def normalise_path(p):
     return p.replace('.parent.', '._parent.') if '.parent.' in p else (p[:-7] + '._parent' if p.endswith('.parent') else p)
 
 
-PURE_STR_METHODS = {'startswith', 'endswith', 'lower', 'upper', 'strip', 'lstrip', 'rstrip', 'find', 'index', 'count', 'partition',
-                    'rpartition', 'isdigit', 'isalpha', 'replace'}
+PURE_STR_METHODS = ('startswith', 'endswith', 'find', 'rfind', 'index', 'count', 'lower', 'upper', 'strip', 'lstrip', 'rstrip',
+                    'isupper', 'islower', 'isdigit', 'isalpha', 'isalnum', 'isspace', 'replace', 'title', 'capitalize', 'partition',
+                    'rpartition')
 
 OPS = {ast.Add: '+', ast.Sub: '-', ast.Mult: '*', ast.Div: '/', ast.FloorDiv: '//', ast.Mod: '%', ast.Pow: '**',
        ast.LShift: '<<', ast.RShift: '>>', ast.BitOr: '|', ast.BitAnd: '&', ast.BitXor: '^', ast.MatMult: '@',
